@@ -296,12 +296,14 @@ def instrument(en, cost_bound, round_cap):
     """bound the run: stop when the cheapest queued cost exceeds cost_bound (every program of the finite
     language costs less) or after round_cap rounds"""
     orig = en._next_cheapest_
-    st = {"rounds": 0}
+    st = {"rounds": 0, "over": 0}
 
     def wrapped():
         nts, c = orig()
         st["rounds"] += 1
-        if st["rounds"] > round_cap or (c is not None and cost_bound is not None and c > cost_bound):
+        if c is not None and cost_bound is not None and c > cost_bound:
+            st["over"] += 1         # the enumerator is shown ONE cost above the bound (a repaired loop stops there)
+        if st["rounds"] > round_cap or st["over"] > 1:
             raise Limit()
         return nts, c
     en._next_cheapest_ = wrapped
